@@ -8,7 +8,7 @@ CONFIG = {'gen': [],
          'some packets with wrong counts / RDLength / unrepresentable names); (3) Unmarshal on packets written by an independent RFC 1002 '
          'serializer and by miekg/dns, on every prefix, byte flips, label-string pointers, changed label lengths, raised counts, trailing '
          'bytes, random bytes and the pre-repair wire form; distinct = distinct input line; non-trivial = implementation output is a '
-         'non-empty value.',
+         'non-empty value. Half of the packet decodes go into a packet value that has already decoded a packet with one entry in each of the four sections.',
  'assumptions': ['*NetBIOSName fields of questions and records are non-nil; Unmarshal is called on a zero-valued packet',
                  'Marshal trusts the header counts and RDLength: the round-trip theorems assume counts = section sizes and RDLength = '
                  'len(RData)',
